@@ -344,7 +344,7 @@ def naming_cases(draw, specs: st.SearchStrategy[t.Any]) -> t.Any:
 def _force_rename(sp: t.Any) -> t.Any:
     """Give a class without any renamed field one (field-level rename of its first init field), so three quarters of the cases are not idle."""
     nd = tg.node(sp)
-    if any(f.init and f.name not in f.in_names for f in nd.fields):
+    if any(f.init and f.name not in f.in_names and nd.by_key.get(f.name, (f, False))[0] is f for f in nd.fields):
         return sp
     cs = dict(sp[1])
     fields = [dict(f) for f in cs['fields']]
@@ -367,7 +367,8 @@ def check_naming(case: t.Any, ctx: Ctx) -> None:
     from ..oracles import outcome
     (spec, base, _, pick, fault, bad) = case
     nd = tg.node(spec)
-    cand = [f for f in nd.fields if f.init and f.name not in f.in_names]
+    # (a python name that is the configured name of another field is not in the unspecified cell: it names that other field)
+    cand = [f for f in nd.fields if f.init and f.name not in f.in_names and nd.by_key.get(f.name, (f, False))[0] is f]
     if not cand:
         ctx.label('no-renamed-field')
         return
